@@ -141,7 +141,7 @@ Qed.
 
 (* the states between two calls of the response phase *)
 Inductive tu_betw (c : connp) (rw : bytes) : Prop :=
-| UB_idle : tr_rest w c t0 -> rw = tc_wire ps s r ls -> tu_betw c rw
+| UB_idle : tr_rest w c t0 -> rw = tc_wire ps s r ls [] -> tu_betw c rw
 | UB_in : tu_tt c rw -> tu_betw c rw.
 
 Lemma tu_step c (rw x rw' : bytes) : tu_betw c rw -> x <> [] -> rw = x ++ rw' ->
@@ -271,7 +271,7 @@ Proof.
   { destruct (tn_rq_p c1) as (P1 & P2 & P3 & P4 & P5). constructor; rewrite ?P1, ?P2, ?P3, ?P5.
     - exact (im_status _ _ _ I1). - exact (im_state _ _ _ I1). - exact (im_tx _ _ _ I1). - exact Si1. }
   pose proof (tu_rest_of_base c1 t0 Fr1 Et) as Rest1.
-  assert (Ewr : sr_wire rsp cuts [] = tc_wire ps ss rr ls) by (unfold sr_wire, tc_wire, sr_line0; rewrite <- !app_assoc; reflexivity).
+  assert (Ewr : sr_wire rsp cuts [] = tc_wire ps ss rr ls []) by (unfold sr_wire, tc_wire, sr_line0; rewrite <- !app_assoc; reflexivity).
   destruct (tu_chunks cb g Hcb t0 H09 ps ss rr ls Wl Okl Hnp Hsw0 Hl0 Hfit (tn_rq c1) Hifr spre c1 _ slast (UB_idle g t0 ps ss rr ls (tn_rq c1) c1 _ Rest1 eq_refl) Sa Sl ltac:(rewrite Sc; exact Ewr))
     as (rsB & rD & ErB & T2 & X2 & R2 & Q2 & RD1 & RD2 & RD3 & RD4).
   cbv zeta in ErB, T2, X2. set (opsB := map OpResData (spre ++ [slast])) in *. set (c2 := fst (cp_run cb g c1 opsB)) in *.
